@@ -225,7 +225,7 @@ func Substring(ctx *expr.Context, input system.Collection, args ...expr.Expressi
 	if err != nil {
 		return nil, err
 	}
-	if int(start) >= len(fullString) {
+	if start < 0 || int(start) >= len(fullString) {
 		return system.Collection{}, nil
 	}
 
@@ -245,9 +245,10 @@ func Substring(ctx *expr.Context, input system.Collection, args ...expr.Expressi
 	}
 
 	var result system.String
-	if substringLength > -1 && int(start+substringLength) < len(fullString) {
-		// Substring will not go out of bounds
-		result = system.String(fullString[start : start+substringLength])
+	if substringLength > -1 && int(start)+int(substringLength) < len(fullString) {
+		// Substring will not go out of bounds (the sum is computed in int:
+		// start+substringLength can overflow an int32)
+		result = system.String(fullString[int(start) : int(start)+int(substringLength)])
 	} else {
 		result = system.String(fullString[start:])
 	}
